@@ -29,6 +29,11 @@ type c08Known struct {
 	rs      map[string]string // r hex -> where it was learnt
 	secrets map[string]string // deterministic output secrets
 	derived map[string]uint32 // wallet|keyset -> counters derived so far
+	// secretOfR: the output secret a blinding factor was used for; one r under two different
+	// secrets lets the mint link both outputs to their proofs once they are spent
+	// (B_1 - hash_to_curve(x_1) = B_2 - hash_to_curve(x_2))
+	secretOfR map[string]string
+	shared    []string
 }
 
 func (k *c08Known) addR(r, where string) {
@@ -47,6 +52,17 @@ func (k *c08Known) fromProofs(ps cashu.Proofs, where string) {
 	for _, p := range ps {
 		if p.DLEQ != nil && p.DLEQ.R != "" {
 			k.addR(p.DLEQ.R, where)
+			rr := strings.ToLower(p.DLEQ.R)
+			k.mu.Lock()
+			if k.secretOfR == nil {
+				k.secretOfR = map[string]string{}
+			}
+			if prev, ok := k.secretOfR[rr]; ok && prev != p.Secret {
+				k.shared = append(k.shared, fmt.Sprintf("secrets %s and %s (%s)", truncStr(prev, 40), truncStr(p.Secret, 40), where))
+			} else if !ok {
+				k.secretOfR[rr] = p.Secret
+			}
+			k.mu.Unlock()
 		}
 	}
 }
@@ -224,6 +240,13 @@ func runC08(r *core.Run) {
 				for _, ht := range s.Held {
 					known.fromProofs(ht.Proofs, "proofs returned by "+wn.Name)
 				}
+			}
+			known.mu.Lock()
+			shared := known.shared
+			known.shared = nil
+			known.mu.Unlock()
+			if len(shared) > 0 {
+				r.Violate("blinding-factor-shared-by-outputs", "two outputs with different secrets were blinded with the same r, so the mint can connect both proofs with the signatures it issued as soon as they are spent: "+shared[0], sig, s.Tail(4))
 			}
 			var recs []*inproc.Record
 			recs, cursor = w.Rec.From(cursor)
